@@ -64,6 +64,8 @@ pub open spec fn rows_ext(rows: Seq<Seq<AdjacentNode>>, n: nat) -> Seq<Seq<Adjac
         !edge_already_exists ==> final(adjacency_vec)[u_node_index as int]@ == old(adjacency_vec)[u_node_index as int]@.push(AdjacentNode { node_index: v_node_index, weight: weight }),
         // [C03.adjvec.existing_pair_min_or_replace]
         edge_already_exists ==> row_updated(old(adjacency_vec)[u_node_index as int]@, final(adjacency_vec)[u_node_index as int]@, v_node_index, weight, replace, old(adjacency_vec)[u_node_index as int]@.len() as int),
+        // [C03.adjvec.row_functional_form]
+        final(adjacency_vec)[u_node_index as int]@ == row_apply(old(adjacency_vec)[u_node_index as int]@, v_node_index, weight, edge_already_exists, replace),
         // [C03.adjvec.functional_form]
         rows_of(final(adjacency_vec)@) == adj_apply(rows_of(old(adjacency_vec)@), u_node_index, v_node_index, weight, edge_already_exists, replace),
 //@ loop 1
@@ -77,6 +79,7 @@ pub open spec fn rows_ext(rows: Seq<Seq<AdjacentNode>>, n: nat) -> Seq<Seq<Adjac
         let r0 = rows_of(old(adjacency_vec)@);
         let r1 = rows_of(adjacency_vec@);
         let want = adj_apply(r0, u_node_index, v_node_index, weight, edge_already_exists, replace);
+        assert(adjacency_vec[u_node_index as int]@ =~= row_apply(old(adjacency_vec)[u_node_index as int]@, v_node_index, weight, edge_already_exists, replace));
         assert(r1.len() == want.len());
         assert forall|i: int| 0 <= i < r1.len() implies r1[i] == want[i] by {
             if i == u_node_index as int {
